@@ -361,9 +361,10 @@ Record st := mkSt { rows : list row; g : vec; blocks : list blk; active : bool; 
                     maxc : Z (* ConnectionList::max_size *);
                     hq : list N (* pieces whose chunk handle is held by the hash queue *);
                     sockfull : bool (* SocketManager::can_open_socket(category_generic) is false *);
-                    maxpex : Z (* DownloadInfo::max_size_pex: a tuning constant, set by SetMaxPex from the probed value *) }.
+                    maxpex : Z (* DownloadInfo::max_size_pex: a tuning constant, set by SetMaxPex from the probed value *);
+                    dqueue : list nat (* ConnectionList::m_disconnectQueue: connections queued by erase(.., disconnect_delayed) *) }.
 
-Definition init (seed : bool) : st := mkSt [] vz [] true true seed false false 100 [] false 8.
+Definition init (seed : bool) : st := mkSt [] vz [] true true seed false false 100 [] false 8 [].
 
 Fixpoint upd (c : nat) (f : row -> row * vec) (l : list row) : list row * vec * bool :=
   match l with
@@ -382,21 +383,21 @@ Definition get_row (c : nat) (l : list row) : option row := find (fun r => Nat.e
 
 Definition with_row (c : nat) (f : row -> row * vec) (s : st) : st :=
   match upd c f (rows s) with
-  | (rs, dv, ok) => mkSt rs (g s +v dv) (blocks s) (active s) (opened s) (seeding s) (rej s || negb ok) (pexact s) (maxc s) (hq s) (sockfull s) (maxpex s)
+  | (rs, dv, ok) => mkSt rs (g s +v dv) (blocks s) (active s) (opened s) (seeding s) (rej s || negb ok) (pexact s) (maxc s) (hq s) (sockfull s) (maxpex s) (dqueue s)
   end.
 Definition set_blocks (bl : list blk) (s : st) : st :=
-  mkSt (rows s) (g s) bl (active s) (opened s) (seeding s) (rej s) (pexact s) (maxc s) (hq s) (sockfull s) (maxpex s).
+  mkSt (rows s) (g s) bl (active s) (opened s) (seeding s) (rej s) (pexact s) (maxc s) (hq s) (sockfull s) (maxpex s) (dqueue s).
 Definition set_hq (l : list N) (s : st) : st :=
-  mkSt (rows s) (g s) (blocks s) (active s) (opened s) (seeding s) (rej s) (pexact s) (maxc s) l (sockfull s) (maxpex s).
+  mkSt (rows s) (g s) (blocks s) (active s) (opened s) (seeding s) (rej s) (pexact s) (maxc s) l (sockfull s) (maxpex s) (dqueue s).
 Definition set_sockfull (b : bool) (s : st) : st :=
-  mkSt (rows s) (g s) (blocks s) (active s) (opened s) (seeding s) (rej s) (pexact s) (maxc s) (hq s) b (maxpex s).
+  mkSt (rows s) (g s) (blocks s) (active s) (opened s) (seeding s) (rej s) (pexact s) (maxc s) (hq s) b (maxpex s) (dqueue s).
 (* Listen::event_read when SocketManager::open_event_or_cleanup refuses: the accepted descriptor is closed at once, no
    Handshake, no table entry, no counter *)
 Definition refused_row (c : nat) (e : bool) : row :=
   mkRow c PNone true e 0%N false false false false false false
         false false false false false false false false false false false false false [] CNone
         false false false 0 1.
-Definition reject (s : st) : st := mkSt (rows s) (g s) (blocks s) (active s) (opened s) (seeding s) true (pexact s) (maxc s) (hq s) (sockfull s) (maxpex s).
+Definition reject (s : st) : st := mkSt (rows s) (g s) (blocks s) (active s) (opened s) (seeding s) true (pexact s) (maxc s) (hq s) (sockfull s) (maxpex s) (dqueue s).
 
 Inductive op :=
 | Connect (c : nat) (incoming ext : bool)
@@ -412,7 +413,9 @@ Inductive op :=
 | SetMaxPex (n : Z)
 | Snub (c : nat) | Unsnub (c : nat)           (* Peer::set_snubbed(true / false) *)
 | HashQueued (p : N)                           (* the last block of piece p arrived: its chunk handle sits in the hash queue *)
-| SockLimit (b : bool).                        (* the socket budget is / is no longer exhausted *)                           (* DownloadInfo::set_max_size_pex / the probed default *)
+| SockLimit (b : bool)                         (* the socket budget is / is no longer exhausted *)
+| DiscDelay (c : nat)                          (* Peer::disconnect(disconnect_delayed) = ConnectionList::erase(.., disconnect_delayed): queued *)
+| DiscFire.                                    (* the scheduler runs DownloadMain::m_delay_disconnect_peers = ConnectionList::disconnect_queued *)                           (* DownloadInfo::set_max_size_pex / the probed default *)
 
 (* the handshake reads the first message after the 68 bytes; which messages end the handshake phase *)
 Definition hs_msg (seed full : bool) (m : pmsg) (n len : N) (r : row) : row * vec :=
@@ -560,7 +563,7 @@ Definition do_stop (s : st) : st :=
   if active s then
     let (bl, dr) := stop_blocks (conn_ids (rows s)) (blocks s) in
     let (rs, dv) := upd_all stop_row (rows s) in
-    dec_tc_all dr (mkSt rs (g s +v dv) bl false (opened s) (seeding s) (rej s) (pexact s) (maxc s) (hq s) (sockfull s) (maxpex s))
+    dec_tc_all dr (mkSt rs (g s +v dv) bl false (opened s) (seeding s) (rej s) (pexact s) (maxc s) (hq s) (sockfull s) (maxpex s) (dqueue s))
   else s.
 
 (* DownloadWrapper::close: HashQueue::remove hands every queued chunk back (receive_hash_done with hash == NULL releases the
@@ -568,7 +571,25 @@ Definition do_stop (s : st) : st :=
 Definition do_close (s : st) : st :=
   let s1 := do_stop s in
   let s2 := dec_tc_all (flat_map (fun b => map fst (trs b)) (blocks s1)) s1 in
-  mkSt (rows s2) (g s2) [] false false (seeding s2) (rej s2) (pexact s2) (maxc s2) [] (sockfull s2) (maxpex s2).
+  mkSt (rows s2) (g s2) [] false false (seeding s2) (rej s2) (pexact s2) (maxc s2) [] (sockfull s2) (maxpex s2) (dqueue s2).
+
+(* ConnectionList::erase(pos, disconnect_delayed): the connection's id is pushed on m_disconnectQueue, nothing is released
+   yet.  ConnectionList::disconnect_queued: every queued id still in the list is erased (erase(itr, 0) = cleanup + PeerList::
+   disconnected, exactly the path of Abort), an id whose connection is gone meanwhile is skipped; the queue is emptied.
+   Neither DownloadMain::stop nor close touches the queue (stop only erases the scheduler entry). *)
+Definition set_dqueue (l : list nat) (s : st) : st :=
+  mkSt (rows s) (g s) (blocks s) (active s) (opened s) (seeding s) (rej s) (pexact s) (maxc s) (hq s) (sockfull s) (maxpex s) l.
+Definition erase_queued (c : nat) (s : st) : st :=
+  match get_row c (rows s) with
+  | Some r => if is_conn r then abort_conn c s else s
+  | None => s
+  end.
+Definition disc_delay (c : nat) (s : st) : st :=
+  match get_row c (rows s) with
+  | Some r => if is_conn r then set_dqueue (dqueue s ++ [c]) s else reject s   (* only an established connection is a Peer *)
+  | None => reject s
+  end.
+Definition disc_fire (s : st) : st := set_dqueue [] (fold_left (fun s c => erase_queued c s) (dqueue s) s).
 
 Definition pmsg_step (c : nat) (m : pmsg) (n len : N) (s : st) : st :=
   match get_row c (rows s) with
@@ -611,11 +632,11 @@ Definition step (s : st) (o : op) : st :=
           if sockfull s then
             (if incoming then
                mkSt (rows s ++ [refused_row c e]) (g s) (blocks s) (active s) (opened s) (seeding s) (rej s) (pexact s)
-                    (maxc s) (hq s) (sockfull s) (maxpex s)
+                    (maxc s) (hq s) (sockfull s) (maxpex s) (dqueue s)
              else s)          (* HandshakeManager::add_outgoing: can_open_socket is false, nothing happens *)
           else
           mkSt (rows s ++ [new_row c incoming e]) (g s +v d 1 1 +v d 18 1) (blocks s)
-                     (active s) (opened s) (seeding s) (rej s) (pexact s) (maxc s) (hq s) (sockfull s) (maxpex s)
+                     (active s) (opened s) (seeding s) (rej s) (pexact s) (maxc s) (hq s) (sockfull s) (maxpex s) (dqueue s)
       end
   | HsBytes c n => with_row c (hs_bytes_row (pexact s) (nth 14 (g s) 0) (maxpex s) n) s
   | PeerMsg c m n len => pmsg_step c m n len s
@@ -649,14 +670,16 @@ Definition step (s : st) (o : op) : st :=
   | Stop => do_stop s
   | Close => do_close s
   | Remove => do_close s
-  | Start => if opened s then mkSt (rows s) (g s) (blocks s) true true (seeding s) (rej s) (pexact s) (maxc s) (hq s) (sockfull s) (maxpex s) else s
-  | SetMax n => mkSt (rows s) (g s) (blocks s) (active s) (opened s) (seeding s) (rej s) (pexact s) n (hq s) (sockfull s) (maxpex s)
-  | SetMaxPex n => mkSt (rows s) (g s) (blocks s) (active s) (opened s) (seeding s) (rej s) (pexact s) (maxc s) (hq s) (sockfull s) n
+  | Start => if opened s then mkSt (rows s) (g s) (blocks s) true true (seeding s) (rej s) (pexact s) (maxc s) (hq s) (sockfull s) (maxpex s) (dqueue s) else s
+  | SetMax n => mkSt (rows s) (g s) (blocks s) (active s) (opened s) (seeding s) (rej s) (pexact s) n (hq s) (sockfull s) (maxpex s) (dqueue s)
+  | SetMaxPex n => mkSt (rows s) (g s) (blocks s) (active s) (opened s) (seeding s) (rej s) (pexact s) (maxc s) (hq s) (sockfull s) n (dqueue s)
   | Snub c => with_conn c up_snub s
   | Unsnub c => with_conn c up_unsnub s
   | HashQueued p => set_hq (p :: hq s) s
   | SockLimit b => set_sockfull b s
-  | PexTick => mkSt (rows s) (g s) (blocks s) (active s) (opened s) (seeding s) (rej s) true (maxc s) (hq s) (sockfull s) (maxpex s)
+  | DiscDelay c => disc_delay c s
+  | DiscFire => disc_fire s
+  | PexTick => mkSt (rows s) (g s) (blocks s) (active s) (opened s) (seeding s) (rej s) true (maxc s) (hq s) (sockfull s) (maxpex s) (dqueue s)
   end.
 
 Definition run (seed : bool) (ops : list op) : st := fold_left step ops (init seed).
